@@ -385,6 +385,8 @@ def fixed_units():
         ("set_between", "SET search_path = shop;\nCREATE TABLE s1 (\n  x int\n);\nSET b = 2;\nCREATE TABLE s2 (y int);".split("\n")),
         ("hql_part", "CREATE EXTERNAL TABLE ev (\n    ts string,\n    msg string COMMENT 'text of it'\n)\nPARTITIONED BY (dt string)\nSTORED AS PARQUET\nLOCATION 's3://bucket/ev';".split("\n")),
         ("strings", "CREATE TABLE q1 (\n  a varchar(5) DEFAULT 'x, y' NOT NULL,\n  b varchar(9) DEFAULT 'p' COMMENT 'q (r)',\n  c int\n);".split("\n")),
+        # literals holding the OTHER quote character an odd number of times: the quote state of a line is per quote kind
+        ("mixed_quotes", "CREATE TABLE q2 (\n  a varchar(5) DEFAULT '\"' NOT NULL,\n  b varchar(40) COMMENT 'say \"hi\" to o\"neil',\n  c int\n);".split("\n")),
     ]
     return units
 
